@@ -48,149 +48,204 @@ static void bufCase(vh::Rng& g, int nops) {
 }
 
 // ------------------------------------------------------------------ simulation
-struct Log { std::vector<double> t, v; };
+// One observation of every measure: flag 0 = completed integrator step (advanced state), 1 = report state (interpolated, or
+// the initial StartOfContinuousInterval return): observed only, never fed to the auto-update variables.
+struct Ob {
+    int flag; size_t avail;      // avail = number of completed steps (incl. the initial one) whose data the auto-update variables hold
+    double t, v, extV[4], extT[4], del, difA, z, zdot, sv, svd, extSd, extDel; Vec3 lin, evec;
+};
 
-static double runningExtreme(int op, const std::vector<double>& v, size_t k, size_t& idx) {
-    double e = v[0]; idx = 0;
-    for (size_t i = 1; i <= k; ++i) {
-        bool nw = op == 0 ? std::fabs(v[i]) > std::fabs(e) : op == 1 ? v[i] > e : op == 2 ? std::fabs(v[i]) < std::fabs(e) : v[i] < e;
-        if (nw) { e = v[i]; idx = i; }
-    }
-    return e;
-}
+static bool newExt(int op, double nv, double old) { return op == 0 ? std::fabs(nv) > std::fabs(old) : op == 1 ? nv > old : op == 2 ? std::fabs(nv) < std::fabs(old) : nv < old; }
 
-static void simCase(vh::Rng& g, bool big) {
+static void simCase(vh::Rng& g, bool big, int forceKind) {
     MultibodySystem system; SimbodyMatterSubsystem matter(system); GeneralForceSubsystem forces(system);
     Force::UniformGravity gravity(forces, matter, Vec3(0, -9.8, 0));
     Body::Rigid body(MassProperties(1.0, Vec3(0), Inertia(1)));
     MobilizedBody::Pin pend(matter.updGround(), Transform(Vec3(0)), body, Transform(Vec3(0, 1, 0)));
     Subsystem& sub = forces;
-    const double a = g.signedMag(0.3, 3), w = g.range(0.5, 6), p = g.range(-3, 3), c = g.signedMag(0.2, 3), k0 = g.signedMag(0.1, 2) * (g.coin() ? 1 : 0);
+    const double a = g.signedMag(0.3, 3), w = g.range(0.5, 2.5), p = g.range(-3, 3), c = g.signedMag(0.2, 3), k0 = g.signedMag(0.1, 2) * (g.coin() ? 1 : 0);
     const bool useMinus = g.coin();
     Measure::Time tm(sub);
     Measure::Sinusoid sn(sub, a, w, p);
     Measure::Scale sc(sub, c, sn);
     Measure::Constant kc(sub, k0);
-    Measure operand = useMinus ? (Measure)Measure::Minus(sub, sc, kc) : (Measure)Measure::Plus(sub, sc, kc);
+    Measure::Plus plusM(sub, sc, kc); Measure::Minus minusM(sub, sc, kc);
+    Measure operand = useMinus ? (Measure)minusM : (Measure)plusM;
     Measure::Extreme ext[4] = { Measure::Extreme(sub, operand, Measure::Extreme::MaxAbs), Measure::Extreme(sub, operand, Measure::Extreme::Maximum),
                                 Measure::Extreme(sub, operand, Measure::Extreme::MinAbs), Measure::Extreme(sub, operand, Measure::Extreme::Minimum) };
-    const double delay = g.coin() ? g.range(0.02, 0.5) : g.range(0.5, 2.0);
+    const int opS = g.below(4), opD = g.below(4), opV = g.below(4);
+    Measure::Extreme extS(sub, sn, (Measure::Extreme::Operation)opS);          // operand with derivatives: getValue(s,1)
+    const int delayKind = g.below(8);                                          // 0: zero delay; 1-3: shorter than a step; else long
+    const double hFix = g.range(0.01, 0.04);
+    const double delay = delayKind == 0 ? 0.0 : delayKind <= 3 ? g.range(0.2, 0.9) * hFix : g.range(0.1, 2.0);
     Measure::Delay del(sub, operand, delay);
+    if (g.coin()) del.setUseLinearInterpolationOnly(true);
+    const bool canUseCurrent = g.below(4) == 0; if (canUseCurrent) del.setCanUseCurrentValue(true);
+    Measure::Extreme extDel(sub, del, (Measure::Extreme::Operation)opD);       // nested auto-update measures
     const double ic = g.signedMag(0.1, 2);
     Measure::Constant icm(sub, ic);
     Measure::Integrate integral(sub, operand, icm);
     Measure::Differentiate difA(sub, operand); difA.setForceUseApproximation(true);
+    const Vec3 rate(g.signedMag(0.2, 2), g.signedMag(0.2, 2), g.signedMag(0.2, 2)), icv(g.signedMag(0.1, 1), g.signedMag(0.1, 1), g.signedMag(0.1, 1));
+    Measure_<Vec3>::Constant rateM(sub, rate), icvM(sub, icv);
+    Measure_<Vec3>::Integrate lin(sub, rateM, icvM);                             // icv + rate*(t-t0): elements cross zero at different times
+    Measure_<Vec3>::Extreme evec(sub, lin, (Measure_<Vec3>::Extreme::Operation)opV);
     State state = system.realizeTopology();
     const double t0 = g.coin() ? 0.0 : g.signedMag(0.1, 2);
     state.setTime(t0);
     pend.setAngle(state, g.range(-1, 1));
-    const int which = g.below(4);
-    const double h = g.range(0.01, 0.1);
+    const int which = forceKind >= 0 ? forceKind % 4 : g.below(4);
+    const bool grid = forceKind >= 0 ? forceKind >= 4 : g.coin();             // report grid with interpolated report states
+    const double h = hFix;
     const double acc = which == 3 ? 1e-6 : 1e-3;
     Integrator* integ = which == 0 ? (Integrator*)new RungeKutta3Integrator(system) : which == 1 ? (Integrator*)new ExplicitEulerIntegrator(system)
                       : which == 2 ? (Integrator*)new RungeKuttaMersonIntegrator(system) : (Integrator*)new RungeKuttaFeldbergIntegrator(system);
     const char* iname = which == 0 ? "rk3fixed" : which == 1 ? "eulerfixed" : which == 2 ? "merson" : "rkf";
     if (which <= 1) integ->setFixedStepSize(h); else integ->setAccuracy(acc);
-    integ->setAllowInterpolation(false);
+    integ->setAllowInterpolation(grid);
     integ->setReturnEveryInternalStep(true);
-    const int maxSteps = big ? 400 : 60;
-    const double tEnd = t0 + (which <= 1 ? h * (10 + g.below(maxSteps - 10)) : g.range(1, big ? 12 : 4));
+    const int maxSteps = big ? 300 : 50;
+    const double tEnd = t0 + (which <= 1 ? h * (10 + g.below(maxSteps - 10)) : g.range(1, big ? 8 : 3));
+    const double dtRep = (which <= 1 ? h : 0.1) * g.range(0.3, 2.5);
     integ->setFinalTime(tEnd);
     integ->initialize(state);
-    Log L; std::vector<double> extV[4], extT[4], delV, intV, difAV, tmV;
-    auto record = [&](const State& s) {
+    std::vector<Ob> L;
+    size_t stepCount = 0;
+    auto observe = [&](const State& s, int flag) -> Ob {
         system.realize(s, Stage::Acceleration);
-        L.t.push_back(s.getTime()); L.v.push_back(operand.getValue(s));
-        for (int e = 0; e < 4; ++e) { extV[e].push_back(ext[e].getValue(s)); extT[e].push_back(ext[e].getTimeOfExtremeValue(s)); }
-        delV.push_back(del.getValue(s)); intV.push_back(integral.getValue(s)); difAV.push_back(difA.getValue(s));
-        tmV.push_back(tm.getValue(s));
-        // arithmetic measures are exact compositions
-        double s0 = sn.getValue(s), s1 = sn.getValue(s, 1), s2 = sn.getValue(s, 2), s3 = sn.getValue(s, 3);
-        if (L.t.size() % 7 == 1) {
+        Ob o; o.flag = flag; o.avail = std::max<size_t>(stepCount, 1); o.t = s.getTime(); o.v = operand.getValue(s);
+        for (int e = 0; e < 4; ++e) { o.extV[e] = ext[e].getValue(s); o.extT[e] = ext[e].getTimeOfExtremeValue(s); }
+        o.del = del.getValue(s); o.difA = difA.getValue(s); o.z = integral.getValue(s); o.zdot = integral.getValue(s, 1);
+        o.sv = sn.getValue(s); o.svd = sn.getValue(s, 1); o.extSd = extS.getValue(s, 1); o.extDel = extDel.getValue(s);
+        o.lin = lin.getValue(s); o.evec = evec.getValue(s);
+        if ((L.size() + (size_t)flag) % 9 == 1) {      // arithmetic measures: every column comes from a real measure
             vh::I("arith").d(a).d(w).d(p).d(s.getTime()).d(c).d(k0).emit();
-            vh::O("arith").d(s0).d(s1).d(s2).d(s3).d(useMinus ? sc.getValue(s) + k0 : operand.getValue(s)).d(useMinus ? operand.getValue(s) : sc.getValue(s) - k0).d(sc.getValue(s)).emit();
+            vh::O("arith").d(sn.getValue(s)).d(sn.getValue(s, 1)).d(sn.getValue(s, 2)).d(sn.getValue(s, 3)).d(plusM.getValue(s)).d(minusM.getValue(s)).d(sc.getValue(s)).emit();
             vh::D("arith");
-            vh::P("arithmetic_exact", "sim.arith.exact", std::fabs(sc.getValue(s) - c * s0) + std::fabs(operand.getValue(s) - (useMinus ? c * s0 - k0 : c * s0 + k0)) + std::fabs(kc.getValue(s) - k0) + std::fabs(tm.getValue(s) - s.getTime()), 0);
+            vh::P("arithmetic_exact", "sim.arith.exact", std::fabs(kc.getValue(s) - k0) + std::fabs(tm.getValue(s) - s.getTime()), 0);
         }
+        return o;
     };
-    record(integ->getState());
-    int guard = 0;
-    while (integ->getTime() < tEnd && guard++ < 5000) {
-        Integrator::SuccessfulStepStatus st = integ->stepTo(tEnd);
-        record(integ->getState());
+    // The log is chronological.  While the advanced state sits at the end of step k, the auto-update variables hold the data of
+    // steps 0..k-1; report states inside step k (earlier times) therefore come BEFORE the entry of step k, which is appended when
+    // the integrator moves on.
+    L.push_back(observe(integ->getAdvancedState(), 0));      // step 0: the initialized state
+    stepCount = 1;
+    bool havePending = false; Ob pending;
+    double lastAdv = t0, nextRep = t0 + dtRep; int guard = 0;
+    while (integ->getAdvancedTime() < tEnd && guard++ < 5000) {
+        Integrator::SuccessfulStepStatus st = integ->stepTo(grid ? std::min(nextRep, tEnd) : tEnd);
+        const State& adv = integ->getAdvancedState();
+        if (adv.getTime() > lastAdv) {
+            if (havePending) { L.push_back(pending); ++stepCount; }
+            pending = observe(adv, 0); pending.avail = std::max<size_t>(stepCount, 1); havePending = true; lastAdv = adv.getTime();
+        }
+        const State& cur = integ->getState();
+        if (st == Integrator::StartOfContinuousInterval || (st == Integrator::ReachedReportTime && cur.getTime() != adv.getTime())) L.push_back(observe(cur, 1));
+        if (st == Integrator::ReachedReportTime) nextRep += dtRep;
         if (st == Integrator::EndOfSimulation) break;
     }
+    if (havePending) { L.push_back(pending); ++stepCount; }
     delete integ;
-    const size_t N = L.t.size() - 1;
-    if (N < 1) return;
-    // the first stepTo() returns at the initial time (StartOfContinuousInterval): the log then holds t0 twice.  D = indices of
-    // the distinct times (what the auto-update variables have seen)
-    std::vector<size_t> D; for (size_t k = 0; k <= N; ++k) if (k == 0 || L.t[k] != L.t[k - 1]) D.push_back(k);
-    const std::string key = std::string("sim.") + iname;
+    const size_t N = L.size() - 1;
+    if (stepCount < 3) return;
+    const std::string key = std::string("sim.") + iname + (grid ? ".grid" : ".steps");
+    vh::D(key);
     const double amp = std::fabs(c * a), M1 = amp * w, M2 = amp * w * w, M3 = M2 * w;
     auto f = [&](double t) { return c * a * std::sin(w * t + p) + (useMinus ? -k0 : k0); };
-    // ---- Extreme (4 operations)
-    for (int e = 0; e < 4; ++e) {
-        vh::Line in = vh::I("ext"); in.d(e).d(N).d(L.t[0]).d(L.v[0]); for (size_t k = 1; k <= N; ++k) in.d(L.t[k]).d(L.v[k]); in.emit();
-        vh::Line ov = vh::O("val"); for (size_t k = 1; k <= N; ++k) ov.d(extV[e][k]); ov.emit();
-        vh::Line ot = vh::O("time"); for (size_t k = 1; k <= N; ++k) ot.d(extT[e][k]); ot.emit();
-        vh::D(key + ".extreme");
-        double badV = 0, badT = 0;
-        for (size_t k = 0; k <= N; ++k) { size_t idx; double ex = runningExtreme(e, L.v, k, idx); if (extV[e][k] != ex) badV = 1; if (extT[e][k] != L.t[idx]) badT = 1; }
-        vh::P("extreme_is_running_extreme", key + ".extreme.value", badV, 0);
-        vh::P("extreme_time_is_first_occurrence", key + ".extreme.time", badT, 0);
+    std::vector<size_t> S; for (size_t k = 0; k <= N; ++k) if (L[k].flag == 0) S.push_back(k);     // indices of the completed steps
+    size_t nRep = N + 1 - S.size();
+    if (nRep > 1) vh::D("sim.reportstates");
+    // ---- Extreme (4 operations on the operand, one on the delayed operand)
+    for (int e = 0; e < 5; ++e) {
+        const int op = e < 4 ? e : opD;
+        auto val = [&](const Ob& o) { return e < 4 ? o.v : o.del; };
+        vh::Line in = vh::I("ext"); in.d(op).d(N).d(L[0].t).d(val(L[0])); for (size_t k = 1; k <= N; ++k) in.d(L[k].flag).d(L[k].t).d(val(L[k])); in.emit();
+        vh::Line ov = vh::O("val"); for (size_t k = 1; k <= N; ++k) ov.d(e < 4 ? L[k].extV[e] : L[k].extDel); ov.emit();
+        if (e < 4) { vh::Line ot = vh::O("time"); for (size_t k = 1; k <= N; ++k) ot.d(L[k].extT[e]); ot.emit(); }
+        else { vh::Line ot = vh::O("time"); /* not observed for the nested one: echo the model-independent definition */
+               double E = val(L[0]), T = L[0].t; for (size_t k = 1; k <= N; ++k) { bool nw = newExt(op, val(L[k]), E); ot.d(nw ? L[k].t : T); if (nw && L[k].flag == 0) { E = val(L[k]); T = L[k].t; } } ot.emit(); }
+        vh::D(e < 4 ? key + ".extreme" : std::string("sim.extreme_of_delay"));
+        if (e < 4) {
+            // running extreme over the completed steps; a report state sees extremeOf(its value, extreme of the completed steps)
+            double badV = 0, badT = 0, E = L[0].v, T = L[0].t;
+            for (size_t k = 0; k <= N; ++k) {
+                bool nw = k > 0 && newExt(op, L[k].v, E);
+                double ev = nw ? L[k].v : E, et = nw ? L[k].t : T;
+                if (L[k].extV[e] != ev) badV = 1; if (L[k].extT[e] != et) badT = 1;
+                if (nw && L[k].flag == 0) { E = L[k].v; T = L[k].t; }
+            }
+            vh::P("extreme_is_running_extreme", key + ".extreme.value", badV, 0);
+            vh::P("extreme_time_is_first_occurrence", key + ".extreme.time", badT, 0);
+        }
+    }
+    // ---- derivative of an Extreme (operand with derivatives)
+    {
+        vh::Line in = vh::I("extd"); in.d(opS).d(N).d(L[0].t).d(L[0].sv); for (size_t k = 1; k <= N; ++k) in.d(L[k].flag).d(L[k].t).d(L[k].sv).d(L[k].svd); in.emit();
+        vh::Line ov = vh::O("val"); for (size_t k = 1; k <= N; ++k) ov.d(L[k].extSd); ov.emit();
+        vh::D("sim.extreme_derivative");
+    }
+    // ---- Extreme of a Vec3 measure
+    {
+        vh::Line in = vh::I("extvec"); in.d(opV).d(N).d(L[0].lin[0]).d(L[0].lin[1]).d(L[0].lin[2]); for (size_t k = 1; k <= N; ++k) in.d(L[k].flag).d(L[k].lin[0]).d(L[k].lin[1]).d(L[k].lin[2]); in.emit();
+        vh::Line ov = vh::O("val"); for (size_t k = 1; k <= N; ++k) ov.d(L[k].evec[0]).d(L[k].evec[1]).d(L[k].evec[2]); ov.emit();
+        vh::D("sim.extreme_vec3");
+        // the Vec3 operand is an exactly integrable linear function: Integrate<Vec3> must reproduce icv + rate*(t-t0)
+        double worst = 0; for (size_t k = 0; k <= N; ++k) for (int i = 0; i < 3; ++i) worst = std::max(worst, std::fabs(L[k].lin[i] - (icv[i] + rate[i] * (L[k].t - t0))));
+        vh::P("integrate_vec3_linear", key + ".integrate.vec3", worst, 1e-12 * (1 + std::fabs(tEnd - t0)) * 4);
     }
     // ---- Delay
     {
-        vh::Line in = vh::I("delay"); in.d(delay).d(N).d(L.t[0]).d(L.v[0]); for (size_t k = 1; k <= N; ++k) in.d(L.t[k]).d(L.v[k]); in.emit();
-        vh::Line ov = vh::O("val"); for (size_t k = 1; k <= N; ++k) ov.d(delV[k]); ov.emit();
-        vh::D(key + (delay < h ? ".delay.short" : ".delay.long"));
+        vh::Line in = vh::I("delay"); in.d(delay).d(N).d(L[0].t).d(L[0].v); for (size_t k = 1; k <= N; ++k) in.d(L[k].flag).d(L[k].t).d(L[k].v); in.emit();
+        vh::Line ov = vh::O("val"); for (size_t k = 1; k <= N; ++k) ov.d(L[k].del); ov.emit();
+        vh::D(std::string("sim.delay.") + (delay == 0 ? "zero" : delay < h ? "short" : "long") + (canUseCurrent ? ".canUseCurrent" : ""));
         double worst = -1;
         for (size_t k = 1; k <= N; ++k) {
-            double tau = L.t[k] - delay, expect, bound;
-            // entries available: the distinct completed steps strictly before t_k
-            std::vector<size_t> E; for (size_t q : D) if (L.t[q] < L.t[k]) E.push_back(q);
-            if (E.empty()) E.push_back(0);
-            size_t j = 0; bool found = false; for (; j < E.size(); ++j) if (L.t[E[j]] >= tau) { found = true; break; }
-            if (found && j == 0) { expect = L.v[0]; bound = 0; }                                   // before the start: constant at the initial value
-            else if (found) { expect = f(tau); double dt = L.t[E[j]] - L.t[E[j - 1]]; bound = M2 * dt * dt / 8; }
-            else if (E.size() == 1) { expect = f(tau); bound = M1 * std::fabs(tau - L.t[0]); }     // one entry: flat
-            else { expect = f(tau); bound = M2 * std::fabs(tau - L.t[E[E.size() - 2]]) * std::fabs(tau - L.t[E.back()]) / 2; }   // extrapolation
-            worst = std::max(worst, std::fabs(delV[k] - expect) - 1.01 * bound);
+            double tau = L[k].t - delay, expect, bound;
+            std::vector<size_t> E(S.begin(), S.begin() + std::min(L[k].avail, S.size()));     // completed steps held by the buffer
+            size_t j = 0; bool found = false; for (; j < E.size(); ++j) if (L[E[j]].t >= tau) { found = true; break; }
+            if (found && j == 0) { expect = L[0].v; bound = 0; }                                   // before the start: constant at the initial value
+            else if (found) { expect = f(tau); double dt = L[E[j]].t - L[E[j - 1]].t; bound = M2 * dt * dt / 8; }
+            else if (E.size() == 1) { expect = f(tau); bound = M1 * std::fabs(tau - L[0].t); }     // one entry: flat
+            else { expect = f(tau); bound = M2 * std::fabs(tau - L[E[E.size() - 2]].t) * std::fabs(tau - L[E.back()].t) / 2; }   // extrapolation
+            worst = std::max(worst, std::fabs(L[k].del - expect) - 1.01 * bound);
         }
         vh::P("delay_is_operand_at_t_minus_delay", key + ".delay.value", worst, 1e-10 * std::max(1.0, amp));
-        vh::P("delay_initial", key + ".delay.initial", std::fabs(delV[0] - L.v[0]), 0);
+        vh::P("delay_initial", key + ".delay.initial", std::fabs(L[0].del - L[0].v), 0);
     }
     // ---- Differentiate with approximation
     {
-        vh::Line in = vh::I("diff"); in.d(N).d(L.t[0]).d(L.v[0]); for (size_t k = 1; k <= N; ++k) in.d(L.t[k]).d(L.v[k]); in.emit();
-        vh::Line ov = vh::O("val"); for (size_t k = 1; k <= N; ++k) ov.d(difAV[k]); ov.emit();
+        vh::Line in = vh::I("diff"); in.d(N).d(L[0].t).d(L[0].v); for (size_t k = 1; k <= N; ++k) in.d(L[k].flag).d(L[k].t).d(L[k].v); in.emit();
+        vh::Line ov = vh::O("val"); for (size_t k = 1; k <= N; ++k) ov.d(L[k].difA); ov.emit();
         vh::D(key + ".diffapprox");
-        double worst = 0, hmax = 0; for (size_t k = 1; k <= N; ++k) hmax = std::max(hmax, L.t[k] - L.t[k - 1]);
-        for (size_t k = 1; k <= N; ++k) { if (L.t[k] == L.t[0]) continue;   // no estimate exists at the initial time (reports 0)
-            worst = std::max(worst, std::fabs(difAV[k] - c * a * w * std::cos(w * L.t[k] + p)));
-            if (std::getenv("C23_DEBUG")) std::printf("# k=%zu t=%.6f h=%.6f approx=%g true=%g M2=%g\n", k, L.t[k], L.t[k]-L.t[k-1], difAV[k], c * a * w * std::cos(w * L.t[k] + p), M2); }
-        // first step is first order (error <= M2 h/2), later ones second order but the recursion fdot = 2*slope - fdot_prev carries the
-        // first error along undamped: |err_k| <= M2*h/2 + O(M3 h^2); measured margin in notes
-        vh::P("differentiate_tracks_derivative", key + ".diffapprox.error", worst, 1.5 * M2 * hmax + 5 * M3 * hmax * hmax + 1e-9);
+        double worst = 0, worstLate = 0, hmax = 0; for (size_t q = 1; q < S.size(); ++q) hmax = std::max(hmax, L[S[q]].t - L[S[q - 1]].t);
+        for (size_t q = 1; q < S.size(); ++q) { double e = std::fabs(L[S[q]].difA - c * a * w * std::cos(w * L[S[q]].t + p)); worst = std::max(worst, e); if (q >= 3) worstLate = std::max(worstLate, e); }
+        // the estimate is first order at the first step (|err| <= M2 h/2); the "second order" recurrence fdot = 2*slope - fdot_prev
+        // then carries that error along undamped with alternating sign (theorem diff_quadratic_error_flips)
+        const double bound = 0.75 * M2 * hmax + 3 * M3 * hmax * hmax + 1e-9;
+        if (bound <= 0.25 * M1) vh::P("differentiate_tracks_derivative", key + ".diffapprox.error", worst, bound);
+        else vh::D("sim.diffapprox.coarse_steps_not_judged");
+        // MeasureImplementation.h says of the corrected estimate "now 2nd order": judged on fixed-step runs after the start-up steps
+        if (which <= 1 && S.size() > 6) vh::P("differentiate_second_order_as_documented", "measure.differentiate.approx.not_second_order", worstLate, 3 * M3 * hmax * hmax + 1e-9);
     }
-    // ---- Integrate vs the analytic integral, to integrator accuracy
+    // ---- Integrate: zdot is the operand, z(t0) = ic; z under explicit Euler is predicted exactly; accuracy vs the analytic integral
     {
+        vh::Line in = vh::I("integ"); in.d(which == 1 ? 1 : 0).d(S.size() - 1).d(ic).d(L[0].t).d(L[0].v); for (size_t q = 1; q < S.size(); ++q) in.d(L[S[q]].t).d(L[S[q]].v); in.emit();
+        vh::Line oz = vh::O("zdot"); for (size_t q = 0; q < S.size(); ++q) oz.d(L[S[q]].zdot); oz.emit();
+        vh::Line ov = vh::O("z"); if (which == 1) for (size_t q = 0; q < S.size(); ++q) ov.d(L[S[q]].z); else ov.d(L[0].z); ov.emit();
+        vh::D(key + ".integrate");
         double worst = 0;
         for (size_t k = 0; k <= N; ++k) {
-            double t = L.t[k];
-            double exact = ic + c * a * (std::cos(w * L.t[0] + p) - std::cos(w * t + p)) / w + (useMinus ? -k0 : k0) * (t - L.t[0]);
-            worst = std::max(worst, std::fabs(intV[k] - exact));
+            double t = L[k].t;
+            double exact = ic + c * a * (std::cos(w * L[0].t + p) - std::cos(w * t + p)) / w + (useMinus ? -k0 : k0) * (t - L[0].t);
+            worst = std::max(worst, std::fabs(L[k].z - exact));
         }
-        double T = L.t[N] - L.t[0];
-        double bound = which == 0 ? 2 * M3 * h * h * h * T + 1e-12 : which == 1 ? 2 * M1 * h * T + 1e-12 : 100 * acc * std::max(1.0, amp * T);
+        double T = L[N].t - L[0].t;
+        double bound = which == 0 ? 2 * M3 * h * h * h * T + 1e-12 : which == 1 ? 2 * M1 * h * T + 1e-12 : 30 * acc * std::max(1.0, amp * T);
         vh::P("integrate_is_time_integral", key + ".integrate.error", worst, bound);
-        vh::P("integrate_initial", key + ".integrate.initial", std::fabs(intV[0] - ic), 0);
     }
 }
 
-// replay: buffer-operation records are re-run on a real buffer pair; trajectory records (ext/delay/diff/arith) carry logged
-// data of a simulation that cannot be reconstructed from the record and are skipped
 // Differentiate of an operand that supplies its own derivative (no approximation): finding F-C23a - realize(Acceleration)
 // calls ensureDerivativeIsRealized() with an invalid variable index and crashes.  Run in a child process.
 #include <unistd.h>
@@ -247,8 +302,9 @@ int main(int argc, char** argv) {
     vh::Rng g(args.seed * 7919 + 23);
     bool big = args.n > 200;
     diffExactCase();
+    for (int fk = 0; fk < 8; ++fk) simCase(g, big, fk);      // guaranteed: every integrator x {every-step, report grid}
     for (long k = 0; k < args.n; ++k) {
-        if (g.below(3) == 0) simCase(g, big); else bufCase(g, 5 + g.below(big ? 200 : 60));
+        if (g.below(3) == 0) simCase(g, big, -1); else bufCase(g, 5 + g.below(big ? 200 : 60));
     }
     return 0;
 }
